@@ -6,9 +6,9 @@ for N in "$@"; do
   CMD=$(python3 -c "import json;print(json.load(open('$O/meta.json'))['demo_cmd'])")
   cd $W || { echo "$N NO-WORKTREE"; continue; }
   git diff -- . ':!xcshimgo' > /tmp/confirm-$N.cur.diff
-  ( eval "$CMD" ) > /tmp/confirm-$N.with.log 2>&1; RW=$?
+  ( set -o pipefail; eval "$CMD" ) > /tmp/confirm-$N.with.log 2>&1; RW=$?
   git apply -R $O/patch.diff || { echo "$N CANNOT-REVERT"; continue; }
-  ( eval "$CMD" ) > /tmp/confirm-$N.without.log 2>&1; RO=$?
+  ( set -o pipefail; eval "$CMD" ) > /tmp/confirm-$N.without.log 2>&1; RO=$?
   git apply $O/patch.diff
   echo "$N with_change_exit=$RW without_change_exit=$RO $( [ $RW -ne 0 ] && [ $RO -eq 0 ] && echo CONFIRMED || echo NOT-CONFIRMED )"
 done
